@@ -417,10 +417,17 @@ def _await_descriptor_upload(tor_protocol, onion, progress, await_all_uploads):
     attempted_uploads = set()
     confirmed_uploads = set()
     failed_uploads = set()
-    # directories with an upload that is neither confirmed nor failed
-    # yet (Tor may upload to a directory again, whether the previous
-    # upload there failed or succeeded)
-    outstanding_uploads = set()
+    # directory -> number of uploads there that are neither confirmed
+    # nor failed yet (Tor may upload to a directory again, whether the
+    # previous upload there failed or succeeded, and it may send two
+    # descriptors of one service to the same directory)
+    outstanding_uploads = dict()
+
+    def upload_resolved(hsdir):
+        if outstanding_uploads.get(hsdir, 0) > 1:
+            outstanding_uploads[hsdir] -= 1
+        else:
+            outstanding_uploads.pop(hsdir, None)
     uploaded = defer.Deferred()
     await_all = False if await_all_uploads is None else await_all_uploads
 
@@ -457,7 +464,7 @@ def _await_descriptor_upload(tor_protocol, onion, progress, await_all_uploads):
         if subtype == 'UPLOAD':
             if hostname_matches('{}.onion'.format(args[1])):
                 attempted_uploads.add(args[3])
-                outstanding_uploads.add(args[3])
+                outstanding_uploads[args[3]] = outstanding_uploads.get(args[3], 0) + 1
                 # Tor may try a directory again after a failure: that
                 # upload is outstanding again
                 failed_uploads.discard(args[3])
@@ -476,7 +483,7 @@ def _await_descriptor_upload(tor_protocol, onion, progress, await_all_uploads):
             # (i.e. instead of matching to "attempted_uploads")
             if args[3] in attempted_uploads:
                 confirmed_uploads.add(args[3])
-                outstanding_uploads.discard(args[3])
+                upload_resolved(args[3])
                 log.msg("Uploaded '{}' to '{}'".format(args[1], args[3]))
                 translate_progress(
                     "wait_descriptor",
@@ -494,12 +501,13 @@ def _await_descriptor_upload(tor_protocol, onion, progress, await_all_uploads):
             # upload failure -- e.g. a failed *fetch* of our descriptor)
             if hostname_matches('{}.onion'.format(args[1])) and args[3] in attempted_uploads:
                 failed_uploads.add(args[3])
-                outstanding_uploads.discard(args[3])
+                upload_resolved(args[3])
                 translate_progress(
                     "wait_descriptor",
                     "Failed upload to {}".format(args[3])
                 )
-                if failed_uploads == attempted_uploads and not confirmed_uploads:
+                if failed_uploads == attempted_uploads and not confirmed_uploads \
+                   and not outstanding_uploads:
                     msg = "Failed to upload '{}' to: {}".format(
                         args[1],
                         ', '.join(failed_uploads),
